@@ -16,7 +16,7 @@ prop, n = sid.split('-')
 checks = sys.argv[2:] or [prop]
 tier = os.environ.get('CONFIRM_TIER', 'quick')
 dst = os.path.join(VERIF, 'seeded', sid)
-src = f'/tmp/wt-{prop}/_seeded/{n}'
+src = os.environ.get('CONFIRM_SRC') or f'/tmp/wt-{prop}/_seeded/{n}'      # where the sub-agent left patch / demo / meta
 os.makedirs(dst, exist_ok=True)
 if not os.path.exists(os.path.join(dst, 'patch.diff')):
     shutil.copy(os.path.join(src, 'patch.diff'), dst)
@@ -33,10 +33,11 @@ def sh(cmd, **kw):
 
 sh(f'git -C /repo worktree remove --force {wt}')
 shutil.rmtree(wt, ignore_errors=True)
-head = sh('git -C /repo rev-parse --short HEAD').stdout.strip()
-r = sh(f'git -C /repo worktree add --detach {wt} HEAD')
+base = os.environ.get('CONFIRM_BASE', 'HEAD')     # an older commit when a later repair masks the change
+head = sh(f'git -C /repo rev-parse --short {base}').stdout.strip()
+r = sh(f'git -C /repo worktree add --detach {wt} {base}')
 assert os.path.isdir(wt), r.stderr
-out = {'id': sid, 'property': prop, 'repo_head': head}
+out = {'id': sid, 'property': prop, 'repo_commit': head, 'note': os.environ.get('CONFIRM_NOTE', '')}
 try:
     def demo():
         r = sh(f'PYTHONPATH={wt}/src timeout 900 /venv/bin/python -m pytest -q -p no:cacheprovider {dst}/demo_test.py 2>&1 | tail -1')
